@@ -277,6 +277,31 @@ pub fn part_c09_witnesses(_tier: Tier) -> Part {
             }
         }
     }
+    // (3) a thread whose pc lies in no file
+    match corpus::build(&corpus::generate_mt_opts(&corpus::MtOpts { workers: 1, iters: 2, main_iters: 3, spin: 3_000_000, late_workers: 0, late_ms: 0, worker_sleep_us: 0, anon_loop: true }), &Config::default_cfg()) {
+        Err(e) => part.violate("MACHINERY:mt-build", e, json!(null)),
+        Ok(built) => {
+            let line = |l: &str| built.program.lines.iter().find(|(_, x)| x == l).map(|(n, _)| *n as u64).unwrap_or(0);
+            // the second call of mwork: by then the worker has long reached its loop
+            let cmds = vec![json!({"op": "break_line", "file": built.program.src_file, "line": line("mwork.2")}), json!({"op": "start"}), json!({"op": "continue"})];
+            let run = session(&built.exe, |obs| cmds.get(obs.len()).cloned(), Duration::from_secs(20), cmds.len());
+            part.evaluations += 1;
+            part.states += run.obs.len() as u64;
+            part.traces_validated += 1;
+            let replay = json!({"engine": "mt", "exe": built.exe, "commands": cmds});
+            if run.hang_at.is_some() || run.crashed.is_some() {
+                part.violate("C09:real:debugger-hangs", format!("history with a thread in anonymous code: hang {:?} crash {:?}", run.hang_at, run.crashed), replay);
+            } else if let Some(o) = run.obs.last() {
+                let live: Vec<i64> = o["tasks"].as_array().map(|t| t.iter().filter(|t| t["state"] != "Z" && t["exiting"] != true).map(|t| t["tid"].as_i64().unwrap_or(0)).collect()).unwrap_or_default();
+                let known: Vec<i64> = o["threads"].as_array().map(|t| t.iter().map(|t| t["tid"].as_i64().unwrap_or(0)).collect()).unwrap_or_default();
+                part.sample(json!({"history": "worker loops in an anonymous executable page; break in main; continue", "kernel_tasks": live, "debugger_threads": known}));
+                if live.iter().any(|t| !known.contains(t)) {
+                    part.violate("C09:real:thread-outside-any-file-missing-from-thread-list", format!("the kernel has tasks {live:?}, the debugger lists {known:?}: a thread whose pc belongs to no mapped file (anonymous code, vDSO) is dropped by Debugee::thread_state"), replay);
+                }
+            }
+            let _ = std::process::Command::new("/usr/bin/pkill").args(["-9", "-f", &built.exe]).status();
+        }
+    }
     // (2) killed at a stop
     match Mt::new(2, 300_000, 5, 2_000_000) {
         Err(e) => part.violate("MACHINERY:mt-build", e, json!(null)),
@@ -533,7 +558,7 @@ pub fn part_c10_witnesses(_tier: Tier) -> Part {
 pub fn part_c11_attach(tier: Tier) -> Part {
     let mut part = Part::new("c11_attach");
     part.rule = "the debuggee is started by the harness and attached to while it runs (two threads, a third is created 120 ms later); every history over {break in worker code, break at thread entry, watch a global, continue} x {detach, drop} is followed by an independent inspection: no task has a tracer or sits in a tracing stop, no task has an enabled debug-register slot, the text equals the file, and the process finishes with its native output and exit code".into();
-    let o = corpus::MtOpts { workers: 1, iters: 500, main_iters: 0, spin: 0, late_workers: 1, late_ms: 120, worker_sleep_us: 1000 };
+    let o = corpus::MtOpts { workers: 1, iters: 500, main_iters: 0, spin: 0, late_workers: 1, late_ms: 120, worker_sleep_us: 1000, anon_loop: false };
     let built = match corpus::build(&corpus::generate_mt_opts(&o), &Config::default_cfg()) {
         Ok(b) => b,
         Err(e) => {
